@@ -13,7 +13,6 @@ package rules_test
 
 import (
 	"fmt"
-	"os"
 	"net/netip"
 	"sort"
 	"strings"
@@ -816,7 +815,7 @@ func TestVerifC09EndpointVerdicts(t *testing.T) {
 		"packets never use the VXLAN port or IP-in-IP (workload encapsulation drops are C40's subject)")
 	defer rec.Write()
 	maxPackets := ev.Scale(40, 96)
-	noStalePass := ev.Known(c09SigStalePass) || os.Getenv("VERIF_C09_DEVTMP") == "1" // DEVTMP: remove
+	noStalePass := ev.Known(c09SigStalePass)
 
 	rapid.Check(t, func(t *rapid.T) {
 		kind := c09From(t, "endpointKind", c09Kinds)
